@@ -65,11 +65,11 @@ TReset == /\ Ev.e = "Reset"
           /\ hist' = <<>> /\ bad' = FALSE
 TInitEv == Ev.e = "init" /\ UNCHANGED vars /\ Mark(ObsOK(Ev), "init")
 TRename == Ev.e = "rename" /\ Rename(Ev.a, Ev.b) /\ Mark(ObsOK(Ev), "rename")
-TReplace == Ev.e = "replace" /\ Replace(Ev.a, Ev.b) /\ Mark(ObsOK(Ev), "replace")
+TReplace == Ev.e = "replace" /\ (Replace(Ev.a, Ev.b) \/ ReplaceAbsent(Ev.a, Ev.b)) /\ Mark(ObsOK(Ev), "replace")
 TRemap == /\ Ev.e = "remap" /\ \E m \in TagMaps : m.id = Ev.a /\ Remap(m)
           /\ Mark(ObsOK(Ev), "remap")
 TAdd == Ev.e = "add" /\ Add(Ev.a) /\ Mark(ObsOK(Ev), "add")
-TRemove == Ev.e = "remove" /\ Remove(Ev.a) /\ Mark(ObsOK(Ev), "remove")
+TRemove == Ev.e = "remove" /\ (Remove(Ev.a) \/ RemoveReferenced(Ev.a)) /\ Mark(ObsOK(Ev), "remove")
 TCopyLib == /\ Ev.e = "copylib" /\ CopyLib(Ev.a = "deep")
             /\ Mark(ObsOK(Ev) /\ CopyLibOK(Ev, Ev.a = "deep"), "copylib")
 TCopyCell == /\ Ev.e = "copycell" /\ CopyCell(Ev.a, Ev.b = "deep")
